@@ -514,6 +514,18 @@ def _locals_of(fn):
     return names
 
 
+_UNDEC = {}
+
+
+def _undecorated(m):
+    """the same function without its @staticmethod decorator (cached: identity matters to the inliner's bookkeeping)"""
+    if id(m) not in _UNDEC:
+        c = copy.copy(m)
+        c.decorator_list = []
+        _UNDEC[id(m)] = (m, c)
+    return _UNDEC[id(m)][1]
+
+
 def _resolve_helper(call, ctx, cls, selfname):
     """(FunctionDef, is_method) for a call to a NEW same-module function or same-class method, else None"""
     f = call.func
@@ -527,6 +539,8 @@ def _resolve_helper(call, ctx, cls, selfname):
             return ctx.mod_alias[dotted][f.attr], False
     if isinstance(f, ast.Attribute) and isinstance(f.value, ast.Name) and selfname and f.value.id == selfname and cls is not None:
         m = ctx.classes.get(cls, {}).get(f.attr)
+        if m is not None and [ast.unparse(d) for d in m.decorator_list] == ["staticmethod"]:
+            return _undecorated(m), False          # self.helper(...) on a static method: a plain function call
         if m is not None and not any(ast.unparse(d) in ("property", "staticmethod", "classmethod") or ast.unparse(d).endswith(".setter")
                                      for d in m.decorator_list):
             return m, True
@@ -1235,6 +1249,69 @@ def _partials(tree):
     ast.fix_missing_locations(tree)
 
 
+def _scalar_replacement(fn, records):
+    """N23  a local that only ever holds freshly built records of one record class (N18) and is only read field by field:
+        v = R(a, b); ... v.x ... v.y ...   ->   v__x = a; v__y = b; ... v__x ... v__y ...
+    The object never escapes (no use of v other than `v.<field>`), so its fields are just variables."""
+    if not records:
+        return
+    names = {n.id for n in ast.walk(fn) if isinstance(n, ast.Name)} | {a.arg for a in fn.args.args}
+    stores, loads, other = {}, {}, set()
+    parents = {}
+    for n in ast.walk(fn):
+        for ch in ast.iter_child_nodes(n):
+            parents[id(ch)] = n
+    for n in ast.walk(fn):
+        if isinstance(n, ast.Name):
+            par = parents.get(id(n))
+            if isinstance(n.ctx, ast.Store):
+                if isinstance(par, ast.Assign) and len(par.targets) == 1 and par.targets[0] is n and isinstance(par.value, ast.Call) and \
+                        isinstance(par.value.func, ast.Name) and par.value.func.id in records:
+                    stores.setdefault(n.id, []).append(par)
+                else:
+                    other.add(n.id)
+            elif isinstance(n.ctx, ast.Load):
+                if isinstance(par, ast.Attribute) and par.value is n and isinstance(par.ctx, ast.Load):
+                    loads.setdefault(n.id, []).append(par)
+                else:
+                    other.add(n.id)
+            else:
+                other.add(n.id)
+    for v, asg in stores.items():
+        if v in other or v in {a.arg for a in fn.args.args}:
+            continue
+        rcs = {a.value.func.id for a in asg}
+        if len(rcs) != 1:
+            continue
+        fields, init = records[next(iter(rcs))]
+        if any(l.attr not in fields for l in loads.get(v, [])) or any(("%s__%s" % (v, f)) in names for f in fields):
+            continue
+        binds = []
+        ok = True
+        for a in asg:
+            b = _bind_call(init, a.value, True)
+            if b is None or set(b) != set(fields) or any(isinstance(x, ast.Name) and x.id == v for e_ in b.values() for x in ast.walk(e_)):
+                ok = False
+            binds.append(b)
+        if not ok:
+            continue
+
+        class T(ast.NodeTransformer):
+            def visit_Assign(self, n):
+                for a, b in zip(asg, binds):
+                    if n is a:
+                        return [ast.fix_missing_locations(ast.copy_location(
+                            ast.Assign(targets=[ast.Name(id="%s__%s" % (v, f), ctx=ast.Store())], value=b[f]), n)) for f in fields]
+                return self.generic_visit(n)
+
+            def visit_Attribute(self, n):
+                if isinstance(n.value, ast.Name) and n.value.id == v and isinstance(n.ctx, ast.Load) and n.attr in fields:
+                    return ast.copy_location(ast.Name(id="%s__%s" % (v, n.attr), ctx=ast.Load()), n)
+                return self.generic_visit(n)
+        T().visit(fn)
+        names |= {"%s__%s" % (v, f) for f in fields}
+
+
 def _match_statements(tree):
     """N19  match S: case <literals joined by |> [if g]: A ... case _: Z   ->   if S == a or S == b [and g]: A  elif ...: else: Z
     (value patterns compare with ==, None / True / False with `is`, exactly as the match statement does; a bare capture name binds the
@@ -1319,6 +1396,7 @@ def _record_classes(tree):
         for n in ast.walk(fn):
             n.lineno = n.end_lineno = like.lineno
             n.col_offset = n.end_col_offset = like.col_offset
+        fn._synth = True
         return fn
     nts = {}
     new = []
@@ -1356,6 +1434,15 @@ def _record_classes(tree):
                 ast.fix_missing_locations(st)
         new.append(st)
     tree.body = new
+    # record classes: name -> (fields, synthesised __init__), only those without any other member (pure data)
+    out = {}
+    for st in tree.body:
+        if isinstance(st, ast.ClassDef) and not st.bases and not st.decorator_list:
+            init = [m for m in st.body if isinstance(m, ast.FunctionDef) and m.name == "__init__"]
+            if len(init) == 1 and getattr(init[0], "_synth", False):
+                meths = {m.name for m in st.body if isinstance(m, ast.FunctionDef)}
+                out[st.name] = ([a.arg for a in init[0].args.args[1:]], init[0], meths)
+    return out
 
 
 def normalise_module(tree, modname, foreign=None, mod_alias=None):
@@ -1366,7 +1453,8 @@ def normalise_module(tree, modname, foreign=None, mod_alias=None):
     _property_objects(tree)
     _descriptor_objects(tree)
     _match_statements(tree)
-    _record_classes(tree)
+    recs = _record_classes(tree)
+    records = {k: (f, init) for k, (f, init, meths) in recs.items()}
     pin = pinned()
     funcs, classes = {}, {}
     for n in tree.body:
@@ -1398,6 +1486,7 @@ def normalise_module(tree, modname, foreign=None, mod_alias=None):
             _pair_loops(n, ctx)
             n.body = _block(n.body, ctx, None, None)
             _hoist_common_prefix(n)
+            _scalar_replacement(n, records)
             _Getattr().visit(n)
             _try_keyerror(n, dattrs)
             _views(n)
@@ -1410,6 +1499,7 @@ def normalise_module(tree, modname, foreign=None, mod_alias=None):
                     m.body = _block(m.body, ctx, n.name, selfname)
                     _pair_loops(m, ctx)
                     _hoist_common_prefix(m)
+                    _scalar_replacement(m, records)
                     _Getattr().visit(m)
                     _try_keyerror(m, dattrs)
                     _views(m)
